@@ -1,7 +1,8 @@
 (* The parser's error raising: Context::peek / span / token / skip and the macros syntax_error!,
    raise_syntax_error!, expect! (sylt-parser/src/parser.rs).  The context is represented by the tokens
-   that are still ahead (tokens[curr..] with their spans); `curr` past the end gives the token EOF and
-   Span::zero(file_id), i.e. line 0.  Definitions only. *)
+   that are still ahead (tokens[curr..] with their spans) and by spans.last(); `curr` past the end gives
+   the token EOF and the span of the LAST token of the file (Span::zero(file_id), i.e. line 0, only when
+   the file has no token at all).  Definitions only. *)
 From Coq Require Import List String NArith Bool.
 From Sylt Require Import Lex.Logos.
 Import ListNotations.
@@ -13,16 +14,20 @@ Definition zero_span (file_id : N) : fspan := mkFSpan file_id (mkSpan 0 0 0 0). 
 
 Record context := mkCtx {
   c_ahead : list (string * fspan);     (* (token kind, span) from the current token on *)
+  c_last : option fspan;               (* spans.last(): the span of the last token of the file *)
   c_skip_newlines : bool;
   c_file : string;
   c_file_id : N
 }.
 
-(* peek(): tokens.get(curr).unwrap_or(EOF), spans.get(curr).unwrap_or(zero) *)
+(* peek(): tokens.get(curr).unwrap_or(EOF), spans.get(curr).or(spans.last()).unwrap_or(zero) *)
 Definition token (c : context) : string :=
   match c_ahead c with (t, _) :: _ => t | [] => "EOF" end.
 Definition cspan (c : context) : fspan :=
-  match c_ahead c with (_, s) :: _ => s | [] => zero_span (c_file_id c) end.
+  match c_ahead c with
+  | (_, s) :: _ => s
+  | [] => match c_last c with Some s => s | None => zero_span (c_file_id c) end
+  end.
 
 Definition is_comment (t : string) : bool := String.eqb t "Comment".
 Definition is_newline (t : string) : bool := String.eqb t "Newline".
@@ -44,7 +49,15 @@ Fixpoint skip_trailing (nl : bool) (l : list (string * fspan)) : list (string * 
   end.
 
 Definition skip (n : nat) (c : context) : context :=
-  mkCtx (skip_trailing (c_skip_newlines c) (skip_count (c_ahead c) n)) (c_skip_newlines c) (c_file c) (c_file_id c).
+  mkCtx (skip_trailing (c_skip_newlines c) (skip_count (c_ahead c) n)) (c_last c) (c_skip_newlines c) (c_file c) (c_file_id c).
+
+(* push_skip_newlines(flag): set the flag, then skip(0) (comments, and newlines when the flag is set) *)
+Definition push_skip_newlines (flag : bool) (c : context) : context :=
+  skip 0 (mkCtx (c_ahead c) (c_last c) flag (c_file c) (c_file_id c)).
+
+(* statement(): `let (ctx, _) = ctx.push_skip_newlines(false); ...; let span = ctx.span();` -- the span a
+   Statement carries is the span of its first token *)
+Definition statement_span (at_statement : context) : fspan := cspan (push_skip_newlines false at_statement).
 
 Record syntax_err := mkSyntaxErr { se_file : string; se_span : fspan; se_message : string }.
 
@@ -63,14 +76,21 @@ Definition raise_syntax_error {A} (c : context) (msg : string) : presult A := PE
 Definition expect (c : context) (pat : string -> bool) (msg : string) : presult unit :=
   if pat (token c) then POk (skip 1 c) tt else raise_syntax_error c msg.
 
-(* outer_statement (statement.rs): the statement is parsed first; when its kind is not allowed at top
-   level the error is raised with the context AFTER the statement *)
-Definition outer_statement_check (after_statement : context) (kind_allowed : bool) : presult unit :=
-  if kind_allowed then POk after_statement tt else raise_syntax_error after_statement "Not a valid outer statement".
+(* outer_statement (statement.rs): the statement is parsed first (from `at_statement`, leaving
+   `after_statement`); when its kind is not allowed at top level the error carries stmt.span and the
+   file of the context: Err((ctx.skip(1), vec![Error::SyntaxError { file: ctx.file, span: stmt.span, .. }])) *)
+Definition outer_statement_check (at_statement after_statement : context) (kind_allowed : bool) : presult unit :=
+  if kind_allowed then POk after_statement tt
+  else PErr (skip 1 after_statement)
+            [mkSyntaxErr (c_file after_statement) (statement_span at_statement) "Not a valid outer statement"].
 
 (* the context the parser starts with: every token of the lexer with its span and the file id *)
 Definition lexed (tab : Logos.table) (file_id : N) (s : list N) : list (string * fspan) :=
   map (fun tk => (t_kind tk, mkFSpan file_id (t_span tk))) (lex tab s).
 
+(* spans.last() *)
+Definition last_span (l : list (string * fspan)) : option fspan :=
+  match rev l with (_, s) :: _ => Some s | [] => None end.
+
 Definition initial_context (tab : Logos.table) (file : string) (file_id : N) (s : list N) : context :=
-  mkCtx (lexed tab file_id s) false file file_id.
+  mkCtx (lexed tab file_id s) (last_span (lexed tab file_id s)) false file file_id.
